@@ -1295,6 +1295,9 @@ func (g *Gen) Program(id string) *Prog {
 	if g.o.Containers && g.o.NamedTypes && g.r.Intn(2) == 0 {
 		insert(g.addAppendDemo())
 	}
+	if g.o.Containers && g.r.Intn(3) == 0 {
+		insert(g.addMapRangeDemo())
+	}
 	g.prog.Funcs = append(g.prog.Funcs, &Func{Name: "Main", Body: body})
 	if g.o.Packages {
 		g.prog.Split = g.prog.chooseSplit(g.r)
